@@ -1,13 +1,11 @@
-(* C04 judges (lockstep traces and decisions under forced load): 0 agree & holds; 1 differ, holds; 2 a body started after cancellation
-   without a licensing load; 4 the same inside the domain of the known finding (second inline fallback of ConcurrentTaskSet::schedule /
-   schedulePlaced: c04_domain). *)
+(* C04 judges (lockstep traces and decisions under forced load): 0 agree & holds; 1 differ, holds; 2 a body of a cancelled set started without a
+   licensing canceled_ load preceding the cancel store / a cancelled set ran a functor. *)
 From Coq Require Import ZArith List Bool.
 From DV Require Import Base.MachInt Base.Sched Model.TaskSetModel Gen.GenTaskSet Model.TaskSetCheck.
 Import ListNotations.
 Local Open Scope Z_scope.
 
 Definition judge_C04 (c : lcase) : Z :=
-  let '(v, known) := check_C04 c in
-  if v then (if known then 4 else 2) else if agrees c then 0 else 1.
+  if fst (check_C04 c) then 2 else if agrees c then 0 else 1.
 Definition judge_C04_d (d : dcase) : Z :=
-  if negb (d_check_C04 d) then (if d_in_domain d then 4 else 2) else if d_agrees d then 0 else 1.
+  if negb (d_check_C04 d) then 2 else if d_agrees d then 0 else 1.
